@@ -3,6 +3,7 @@ import Proofs.Bits
 import Proofs.RfcSpec
 import Proofs.RfcMain
 import Proofs.RfcRetry
+import Proofs.RfcSource
 /-!
 # C04 — deterministic nonces and signatures follow RFC 6979 exactly
 
@@ -82,6 +83,19 @@ theorem generate_k_eq_rfc (hmac : Bytes → Bytes → Bytes) (hlen : Nat) (hh : 
   obtain ⟨j, hj, hacc, hc⟩ := this
   exact ⟨⟨j, hj, hacc, hc⟩, hacc.1, hacc.2⟩
 
+/-- converse (so that together with `generate_k_eq_rfc`, "returns exactly the k defined by RFC 6979"):
+whenever the RFC stream has its `(retry_gen+1)`-th acceptable element at index `j`, the private scalar
+fits `rlen` bits (in particular `x < q`) and the digest is non-empty, the model returns that element
+as soon as the fuel exceeds `j` — it neither fails nor loops past it. -/
+theorem generate_k_returns_rfc (hmac : Bytes → Bytes → Bytes) (hlen : Nat) (hh : 0 < hlen)
+    (hlenH : ∀ k m, (hmac k m).length = hlen) (q x : Nat) (h1 extra : Bytes) (retry : Int) (fuel j k : Nat)
+    (hx : x < q) (hne : h1 ≠ []) (hj : j < fuel)
+    (hk : Rfc.stream hmac hlen q x h1 extra j = k) (hacc : Rfc.acceptable q k)
+    (hcnt : ((List.range j).filter (fun i => decide (Rfc.acceptable q (Rfc.stream hmac hlen q x h1 extra i)))).length = retry.toNat) :
+    generateK hmac hlen q x h1 retry extra fuel = some (.ok k) :=
+  Rfc.generateK_complete hmac hlen hh hlenH q x h1 extra retry fuel j k
+    (by rw [Rfc.rolen_eq_orderlen]; exact Nat.lt_trans hx (Rfc.lt_pow_orderlen q)) hne hj hk hacc hcnt
+
 /-- the result of `generate_k` does not depend on the fuel (the model is the code's loop, not an approximation of it) -/
 theorem generate_k_fuel_irrelevant (hmac : Bytes → Bytes → Bytes) (hlen q x : Nat) (h1 extra : Bytes) (retry : Int)
     (f₁ f₂ : Nat) (r₁ r₂ : Res Nat) (h₁ : generateK hmac hlen q x h1 retry extra f₁ = some r₁)
@@ -151,5 +165,55 @@ signs with the second acceptable candidate -/
 example : signDigestDeterministic toyHmac 2 167 140 [0, 79] []
       (fun k => if k = 93 then .error .rsZero else .ok (k, k + 1)) 20 5 = some (.ok (2, 3)) ∧
     generateK toyHmac 2 167 140 [0, 79] 1 [] 20 = some (.ok 2) := by decide +kernel
+
+/-! ## tie to the source text (translator)
+
+`Gen.Rfc.*` is regenerated from `rfc6979.py` / `keys.py` on every run (harness/translate/gen_rand.py): the shift
+of `bits2int`, the conditional subtraction of `bits2octets`, `qlen`, `rolen`, the loop test of step H2, the
+range test `1 <= secret < order`, `retry_gen <= 0`, `retry_gen -= 1`, and `retry_gen = 0` / `retry_gen += 1` of
+the retry loop, cut out of the AST with the surrounding lines pinned textually.  The model takes exactly
+those decisions. -/
+
+theorem source_bits (data : Bytes) (qlen order : Nat) :
+    (bits2int data qlen =
+      if data.isEmpty then .error .valueError
+      else .ok (Gen.Rfc.bits2int_core (beVal data) (Gen.Rfc.bits2int_l data.length) qlen).toNat) ∧
+    (bits2octets data order =
+      (bits2int data (Gen.Rfc.generate_k_qlen order bitLengthInt).toNat).bind fun z1 =>
+        Gen.Rfc.bits2octets_core (z1 : Int) (order : Int) (fun z o => Util.numberToStringCrop z.toNat o.toNat)) ∧
+    (bitLength1 order : Int) = Gen.Rfc.generate_k_qlen order bitLengthInt ∧
+    (((bitLength1 order + 7) / 8 : Nat) : Int) = Gen.Rfc.generate_k_rolen (bitLength1 order : Nat) :=
+  ⟨Rfc.bits2int_source data qlen, Rfc.bits2octets_source data order, (Rfc.sizes_source order).1, (Rfc.sizes_source order).2⟩
+
+theorem source_generate_k_loops (hmac : Bytes → Bytes → Bytes) (order qlen rolen fuel : Nat) (k v t : Bytes) (retry : Int) :
+    (h2Loop hmac k rolen (fuel + 1) v t =
+      if Gen.Rfc.generate_k_h2_continue t.length rolen = 1 then h2Loop hmac k rolen fuel (hmac k v) (t ++ hmac k v)
+      else some (v, t)) ∧
+    (hLoop hmac order qlen rolen (fuel + 1) k v retry =
+      match h2Loop hmac k rolen rolen v [] with
+      | none => none
+      | some (v, t) =>
+        match bits2int t qlen with
+        | .error e => some (.error e)
+        | .ok secret =>
+          if Gen.Rfc.generate_k_accept secret order = 1 then
+            if Gen.Rfc.generate_k_return_now retry = 1 then some (.ok secret)
+            else hLoop hmac order qlen rolen fuel (hmac k (v ++ [0])) (hmac (hmac k (v ++ [0])) v) (Gen.Rfc.generate_k_retry_next retry)
+          else hLoop hmac order qlen rolen fuel (hmac k (v ++ [0])) (hmac (hmac k (v ++ [0])) v) retry) :=
+  ⟨Rfc.h2Loop_source hmac k rolen fuel v t, Rfc.hLoop_source hmac order qlen rolen fuel k v retry⟩
+
+theorem source_retry_loop {σ : Type} (hmac : Bytes → Bytes → Bytes) (holen order secexp : Nat) (digest extra : Bytes)
+    (sign : Nat → Res σ) (kfuel fuel : Nat) :
+    signDigestDeterministic hmac holen order secexp digest extra sign kfuel fuel =
+      signDetLoop (fun retry => generateK hmac holen order secexp digest retry extra kfuel) sign fuel Gen.Rfc.retry_init ∧
+    ∀ (genK : Int → Option (Res Nat)) (f : Nat) (retry : Int), signDetLoop genK sign (f + 1) retry =
+      match genK retry with
+      | none => none
+      | some (.error e) => some (.error e)
+      | some (.ok k) =>
+        match sign k with
+        | .error .rsZero => signDetLoop genK sign f (Gen.Rfc.retry_next retry)
+        | r => some r :=
+  Rfc.signDet_source hmac holen order secexp digest extra sign kfuel fuel
 
 end C04
